@@ -221,6 +221,10 @@ func buildInputs(seed uint64, tier string) ([]input, error) {
 		layoutStream(b, r, docs, cfg.layoutBreaks)
 	}
 
+	// duplicated names in every scope, range tokens in every number form
+	dupnamesStream(b)
+	rangeFormsStream(b)
+
 	// error tokens of every length class, value tables against value descriptions
 	errtokStream(b)
 	valtableStream(b, root.sub("valtable"), map[string]int{"quick": 60, "thorough": 4000}[tier])
